@@ -27,6 +27,8 @@ import (
 //	pipe     <k1> | <k2>
 //	sub      ( <k1> )
 //	bg       <k1> & <k2>                            (only at interpreter level: k1 is an interpreter-level background command)
+//	seq      sh -c '<k1> & ... <kn> &' ; <k>       (only at interpreter level: the first command returns at once and leaves
+//	                                                detached children behind in its process group, whose leader is gone)
 type node struct {
 	kind     string
 	kids     []*node
@@ -34,6 +36,7 @@ type node struct {
 	redirect bool
 	reset    bool // leaf: restores the default SIGINT action (matters for background children of sh)
 	wait     bool // sh: all children in the background, then the builtin 'wait'
+	detach   bool // sh: all children in the background, the shell exits at once
 }
 
 type leafInfo struct {
@@ -46,7 +49,7 @@ type leafInfo struct {
 func genNode(t *rapid.T, depth int, inSh bool) *node {
 	kinds := []string{"leaf", "leaf", "leaf", "sh", "pipe", "sub"}
 	if depth == 0 && !inSh {
-		kinds = append(kinds, "sh", "pipe", "bg", "bg")
+		kinds = append(kinds, "sh", "pipe", "bg", "bg", "seq", "seq")
 	}
 	if depth >= 3 {
 		kinds = []string{"leaf"}
@@ -67,6 +70,13 @@ func genNode(t *rapid.T, depth int, inSh bool) *node {
 		n.kids = []*node{genNode(t, depth+1, inSh), genNode(t, depth+1, inSh)}
 	case "sub":
 		n.kids = []*node{genNode(t, depth+1, inSh)}
+	case "seq":
+		first := &node{kind: "sh", detach: true}
+		for i := rapid.IntRange(1, 2).Draw(t, "detached"); i > 0; i-- {
+			// detached: output away from the task's pipe (otherwise the command would not return)
+			first.kids = append(first.kids, &node{kind: "leaf", redirect: true, reset: rapid.IntRange(0, 3).Draw(t, "resetInt") > 0})
+		}
+		n.kids = []*node{first, genNode(t, depth+1, false)}
 	}
 	return n
 }
@@ -75,13 +85,15 @@ func genNode(t *rapid.T, depth int, inSh bool) *node {
 func (n *node) render(vh, marker, ready string, inSh, bgOfSh, interpBg, piped bool, leaves *[]leafInfo) string {
 	switch n.kind {
 	case "leaf":
-		s := fmt.Sprintf("%s hang %s --ready %s --for 25s", vh, marker, ready)
+		// (the signal disposition is set before the process reports that it is up)
+		s := fmt.Sprintf("%s hang %s", vh, marker)
 		if n.ignore {
 			s += " --ignore-int"
 		}
 		if n.reset {
 			s += " --reset-int"
 		}
+		s += fmt.Sprintf(" --ready %s --for 25s", ready)
 		if n.redirect {
 			s += " >/dev/null 2>&1"
 		}
@@ -90,10 +102,13 @@ func (n *node) render(vh, marker, ready string, inSh, bgOfSh, interpBg, piped bo
 	case "sh":
 		var parts []string
 		for i, k := range n.kids {
-			parts = append(parts, k.render(vh, marker, ready, true, bgOfSh || n.wait || i < len(n.kids)-1, interpBg, piped, leaves))
+			parts = append(parts, k.render(vh, marker, ready, true, bgOfSh || n.wait || n.detach || i < len(n.kids)-1, interpBg, piped, leaves))
 		}
 		if n.wait {
 			return "sh -c " + shq(strings.Join(parts, " & ")+" & wait")
+		}
+		if n.detach {
+			return "sh -c " + shq(strings.Join(parts, " & ")+" &")
 		}
 		return "sh -c " + shq(strings.Join(parts, " & "))
 	case "pipe":
@@ -106,6 +121,10 @@ func (n *node) render(vh, marker, ready string, inSh, bgOfSh, interpBg, piped bo
 		a := n.kids[0].render(vh, marker, ready, inSh, bgOfSh, true, piped, leaves)
 		b := n.kids[1].render(vh, marker, ready, inSh, bgOfSh, interpBg, piped, leaves)
 		return a + " & " + b
+	case "seq":
+		a := n.kids[0].render(vh, marker, ready, inSh, bgOfSh, interpBg, piped, leaves)
+		b := n.kids[1].render(vh, marker, ready, inSh, bgOfSh, interpBg, piped, leaves)
+		return a + " ; " + b
 	}
 	return ""
 }
@@ -132,6 +151,9 @@ func (n *node) shape() string {
 	kind := n.kind
 	if n.wait {
 		kind = "shwait"
+	}
+	if n.detach {
+		kind = "shdetach"
 	}
 	return kind + "(" + strings.Join(ks, ",") + ")"
 }
@@ -279,11 +301,16 @@ const lingerAllowance = 250 * time.Millisecond
 
 // TestC20: canceling a job leaves no process of its tasks behind.
 func TestC20(t *testing.T) {
-	col := ev.Get("C20", "trees", "process trees from a grammar over 'vhelper hang' (leaf | sh -c with foreground/background children | pipeline | subshell | interpreter-level background command; leaves may ignore the interrupt and/or redirect their output away from the task's pipe; depth <= 4), run as a task of a real job next to a bystander job; kill timeout 450-700 ms; cancel (or forced shutdown) at a generated instant, also before the whole tree is up; oracle from /proc after the job is reported finished: no non-zombie process carrying the job's marker is alive (250 ms allowance), report - cancel <= kill timeout + 1.5 s, the bystander's processes are all alive; shapes of the two recorded findings are excluded by construction (counted) and exercised separately; non-trivial = depth >= 2 or a background/pipeline/ignore-int element; distinct by tree shape x cancel phase")
+	col := ev.Get("C20", "trees", "process trees from a grammar over 'vhelper hang' (leaf | sh -c with foreground/background children | pipeline | subshell | interpreter-level background command | a command that returns at once and leaves detached children behind, followed by another; leaves may ignore the interrupt and/or redirect their output away from the task's pipe; depth <= 4), run as a task of a real job next to a bystander job; kill timeout 450-700 ms; cancel (or forced shutdown) at a generated instant, also before the whole tree is up; oracle from /proc after the job is reported finished: no non-zombie process carrying the job's marker is alive (250 ms allowance), report - cancel <= kill timeout + 1.5 s, the bystander's processes are all alive; shapes of the two recorded findings are excluded by construction (counted) and exercised separately; non-trivial = depth >= 2 or a background/pipeline/ignore-int element; distinct by tree shape x cancel phase")
 	vh := helper(t)
 	// the two recorded findings, exercised deterministically
 	for _, kf := range knownFindings(vh) {
 		res := runKillCase(t, vh, kf.script, kf.leaves, 600*time.Millisecond, 0, true, false)
+		if len(res.lingering) > 0 && res.lingerFor > 600*time.Millisecond+1500*time.Millisecond {
+			// the recorded findings are about processes that outlive the report until the kill timeout; one that
+			// is never killed is something else
+			t.Fatalf("[C20] %s: %d processes of the canceled job are still alive %s after it was reported finished, kill timeout is 600ms", kf.key, len(res.lingering), res.lingerFor.Round(10*time.Millisecond))
+		}
 		if len(res.lingering) > 0 && res.lingerFor > lingerAllowance {
 			if isListed(kf.key) {
 				col.AddKnown(fmt.Sprintf("key=%s %s", kf.key, kf.what))
@@ -306,6 +333,7 @@ func TestC20(t *testing.T) {
 			{kind: "sh", kids: []*node{L(false, true, true), L(false, false, false)}},
 			{kind: "pipe", kids: []*node{L(false, false, false), L(false, false, false)}},
 			{kind: "sub", kids: []*node{{kind: "sh", kids: []*node{L(false, false, false), L(true, false, false)}}}},
+			{kind: "seq", kids: []*node{{kind: "sh", detach: true, kids: []*node{L(false, true, true)}}, L(false, false, false)}},
 		}
 		for _, root := range prelude {
 			var leaves []leafInfo
@@ -382,7 +410,7 @@ func TestC20(t *testing.T) {
 			phase = fmt.Sprintf("early(%d/%d up)", res.readyBefore, len(leaves))
 		}
 		col.Add(shape+"|"+phase+fmt.Sprint(viaShutdown), nontrivial, map[string]int{"depth>=2": btoi(root.depth() >= 2), "depth>=3": btoi(root.depth() >= 3), "ignore-int-leaf": btoi(anyIgnore), "interrupt-survivor-holding-pipe": btoi(anySurvive), "cancel-before-tree-up": btoi(early && res.readyBefore < len(leaves)), "forced-shutdown": btoi(viaShutdown),
-			"kind:sh": btoi(strings.Contains(shape, "sh(")), "kind:pipe": btoi(strings.Contains(shape, "pipe(")), "kind:bg": btoi(strings.Contains(shape, "bg(")), "kind:sub": btoi(strings.Contains(shape, "sub("))}, len(leaves),
+			"kind:sh": btoi(strings.Contains(shape, "sh(")), "kind:pipe": btoi(strings.Contains(shape, "pipe(")), "kind:bg": btoi(strings.Contains(shape, "bg(")), "kind:sub": btoi(strings.Contains(shape, "sub(")), "kind:seq(leader-gone)": btoi(strings.Contains(shape, "seq("))}, len(leaves),
 			map[string]interface{}{"tree": shape, "script": script, "kill_timeout_ms": killTimeout.Milliseconds(), "cancel": phase, "forced_shutdown": viaShutdown, "report_after_ms": res.reportAfter.Milliseconds()})
 	})
 }
@@ -396,7 +424,7 @@ type knownFinding struct {
 
 func knownFindings(vh string) []knownFinding {
 	leaf := func(extra string) string {
-		return fmt.Sprintf("%s hang @MARKER@ --ready @READY@ --for 25s%s", vh, extra)
+		return fmt.Sprintf("%s hang @MARKER@%s --ready @READY@ --for 25s", vh, extra)
 	}
 	return []knownFinding{
 		{key: "detached-interrupt-survivor", what: "a process inside 'sh -c' that survives the interrupt (ignores it, or is a background child of the non-interactive shell) and has redirected its output away from the task's pipe outlives the report 'job canceled' until the kill timeout",
